@@ -87,6 +87,14 @@ CLAIMED = {
          "17 theorems, no axioms; hashes modelled by their input (collision resistance assumed), base64/hex abstract; premises: two parent slots, own block "
          "signatures, valid UTF-8 (all produced by correct nodes); out-of-domain shapes are generated too and must deviate as the model predicts",
          "Coq round-trip theorems over a JSON abstract syntax + refutation witnesses + object-level correspondence on the shape product + implementation oracle"),
+ "C08": ("No-panic / no-hang theorem proved in Coq for the REPAIRED validation layer (all helpers, core.fastForward checks, ProcessSigPool, the four RPC "
+         "handlers and both responses) for every value of every field, with `rejected input leaves blocks and application state unchanged` and `what was "
+         "served before is served after`; the same statements are REFUTED for the code as it was, one vm_compute witness per site. Tied to "
+         "the code by ~4400 helper/handler cases replayed on the model under the detected repair configuration, an oracle on real nodes in every state "
+         "(recover + watchdog + delivered blocks before/after + liveness probe), multi-step scenarios and raw bytes on a real TCP transport",
+         "25 theorems, no axioms; signature validity, store/consensus acceptance and hash comparisons are universally quantified data; inside Hashgraph.Reset / "
+         "the consensus passes only the dereferences are modelled; Go 1.23 ecdsa/big/hex/utf8 and codec v1.1.7 quoteStr behaviours transliterated",
+         "Coq theorems + refutation witnesses + helper/handler-level correspondence + implementation oracle (panic/hang/wedge/blocks) + TCP exploration"),
  "C16": ("Store model (LRU, RollingIndex with roll, InmemStore, BadgerStore as cache+DB) proved to refine a plain map for all operation sequences and all cache "
          "sizes under the admission discipline, also across reopen; cache coherence unconditionally; listings exact; the deviations of the real store from a "
          "plain map are proved as refutation witnesses (W1-W5). Tied to the code by replaying every operation of generated sequences on the real BadgerStore",
